@@ -130,6 +130,9 @@ type stackOpts struct {
 	EOFData   bool
 	Backend   *reg.FaultPlan
 	SubPrefix string
+	// RotatingUploadIDs: the backend gives an upload session a new id whenever data has
+	// gone in (reg.RotatingIDs); not under a unified registry.
+	RotatingUploadIDs bool
 }
 
 type stack struct {
@@ -142,6 +145,8 @@ type stack struct {
 	// Uploads notes the upload sessions started on Mem (so that the harness can look
 	// at one in the backend without knowing how any layer above spells upload ids).
 	Uploads *uploadSpy
+	// Rotating is the id-rotating layer on the backend, if there is one.
+	Rotating *reg.Rotating
 }
 
 // uploadSpy sits directly on a backend and notes the id of every upload it starts.
@@ -213,6 +218,10 @@ func buildStack(env *core.Env, o *stackOpts) *stack {
 	s := &stack{Mem: newMem(o.Immutable), Desc: o.Kind, Tracker: reg.NewTracker()}
 	s.Uploads = &uploadSpy{Interface: s.Mem}
 	var r ociregistry.Interface = s.Uploads
+	if o.RotatingUploadIDs && !strings.HasPrefix(o.Kind, "unify") {
+		s.Rotating = reg.RotatingIDs(r)
+		r = s.Rotating
+	}
 	for i, part := range strings.Split(o.Kind, "+") {
 		switch part {
 		case "mem":
